@@ -6,7 +6,7 @@ import os
 from fractions import Fraction as F
 from concurrent.futures import ProcessPoolExecutor
 
-from vlib.absint import Interp, Obj, Arr, Arr2, FuncV, explore, R, num, Unknown, NotInFragment
+from vlib.absint import Interp, Obj, Arr, Arr2, FuncV, Frame, explore, R, num, Unknown, NotInFragment
 from vlib.loader import Repo, AnalysisError, norm
 from vlib.orderdom import weak_orderings, embeddings, describe
 from vlib import world as W
@@ -122,10 +122,16 @@ def check_equivalence(repo, rep, tier):
     rep.floor(rid, 1500)
 
 
-def check_chunk_step(repo, rep):
-    rid = "C12-R3"
-    rep.rule(rid, "_calculate_minimum_candle_step interpreted for route sets (trading + data routes): the chunk length is the gcd of "
-                  "the minutes of ALL routes, so every route's candle boundary is a chunk boundary")
+def check_chunk_step(repo, rep, rid="C12-R3", need="gcd-of-all"):
+    """need = 'gcd-of-all': the step must equal the gcd of all route timeframes (C07/C12: one stored candle per route and chunk);
+    need = 'divides-trading': the step must divide every trading-route timeframe (C01: no chunk straddles a trading-candle boundary)"""
+    if need == "gcd-of-all":
+        rep.rule(rid, "_calculate_minimum_candle_step interpreted for route sets (trading + data routes): the chunk length is the gcd of "
+                      "the minutes of ALL routes, so every route's candle boundary is a chunk boundary")
+    else:
+        rep.rule(rid, "_calculate_minimum_candle_step interpreted for route sets (trading + data routes): the chunk length divides every "
+                      "trading-route timeframe, so no chunk of the fast simulator straddles a trading-candle boundary (its hooks would "
+                      "otherwise run with candles of the other symbols beyond that boundary already stored)")
     import math
 
     def gcd_reduce(it, args, kw):
@@ -134,13 +140,19 @@ def check_chunk_step(repo, rep):
         for x in xs:
             g = math.gcd(g, x)
         return num(g)
-    sets = [("1m",), ("5m",), ("5m", "15m"), ("3m", "5m"), ("45m", "1h"), ("15m", "1h", "4h"), ("1h", "4h"), ("30m", "45m"), ("2h", "3h")]
+    # (trading routes, data routes): larger, smaller and non-multiple data timeframes
+    sets = [(("1m",), ()), (("5m",), ()), (("5m",), ("15m",)), (("3m",), ("5m",)), (("45m",), ("1h",)), (("15m",), ("1h", "4h")), (("1h",), ("4h",)),
+            (("30m",), ("45m",)), (("2h",), ("3h",)), (("15m",), ("5m",)), (("1h",), ("45m",)), (("4h",), ("1h", "15m")),
+            (("5m", "15m"), ()), (("3m", "5m"), ("15m",)), (("15m", "1h"), ("5m",))]
     tf = {"1m": 1, "3m": 3, "5m": 5, "15m": 15, "30m": 30, "45m": 45, "1h": 60, "2h": 120, "3h": 180, "4h": 240}
-    for rs in sets:
+    for trading, data in sets:
+        rs = trading + data
+
         def mk(dec):
             it = Interp(repo, stubs=W.base_stubs(), decisions=dec, ext_stubs={"numpy.gcd.reduce": gcd_reduce})
             routes = [{"exchange": "Sandbox", "symbol": "BTC-USDT", "timeframe": t} for t in rs]
-            it.overrides["jesse/routes/__init__.py:router"] = Obj("RouterClass", name="router", attrs={"all_formatted_routes": routes}, open_world=True)
+            it.overrides["jesse/routes/__init__.py:router"] = Obj("RouterClass", name="router", attrs={
+                "all_formatted_routes": routes, "formatted_routes": routes[:len(trading)], "formatted_data_routes": routes[len(trading):]}, open_world=True)
             fn = repo.func(BT, "_calculate_minimum_candle_step")
             return it, lambda it: it.call(FuncV(fn, repo.module(BT), qual="_calculate_minimum_candle_step"), [], {})
         for out in explore(mk, 8):
@@ -148,10 +160,66 @@ def check_chunk_step(repo, rep):
             for t in rs:
                 want = math.gcd(want, tf[t])
             v = out.value
-            if out.kind != "return" or not (isinstance(v, R) and v.is_const() and v.const_value() == want):
-                rep.violation(rid, "chunk-step", f"chunk step for routes {rs} is {v!r}, expected gcd = {want}")
-            rep.instance(rid, "+".join(rs), {"routes": rs, "step": repr(v)})
-    rep.floor(rid, 8)
+            isint = out.kind == "return" and isinstance(v, R) and v.is_const() and v.const_value().denominator == 1 and v.const_value() >= 1
+            if need == "gcd-of-all":
+                if not (isint and v.const_value() == want):
+                    rep.violation(rid, "chunk-step", f"chunk step for trading routes {trading} + data routes {data} is {v!r}, expected gcd = {want}")
+            else:
+                if not isint or any(tf[t] % int(v.const_value()) for t in trading):
+                    rep.violation(rid, "chunk-step", f"chunk step for trading routes {trading} + data routes {data} is {v!r}: it does not divide every trading timeframe, so a chunk straddles a trading-candle boundary")
+            rep.instance(rid, "+".join(trading) + "|" + "+".join(data), {"trading": trading, "data": data, "step": repr(v)})
+    rep.floor(rid, 12)
+
+
+def check_chunks_partition(repo, rep, rid="C12-R6"):
+    """the time loop of the fast simulator, interpreted for concrete (session length, step) pairs with its callees replaced by
+    recorders: the chunks handed to _simulate_new_candles partition [0, length) - consecutive, none reaching beyond the session -
+    and _execute_routes gets the same (index, step) as the chunk, so route execution is decided on the minutes really simulated"""
+    import ast
+    rep.rule(rid, "fast simulator time loop interpreted for session lengths 1..13 and steps 1, 3, 5 (callees recorded): the chunks "
+                  "[i, i+step) passed to _simulate_new_candles are consecutive, start at 0, end exactly at the session length "
+                  "(a trailing chunk is shortened, not read past the input), and _execute_routes receives the same (i, step)")
+    fn = repo.func(BT, "_skip_simulator")
+    loops = [n for n in ast.walk(fn) if isinstance(n, ast.For) and any(isinstance(c, ast.Call) and SL.last(SL.dotted(c.func)) == "_simulate_new_candles" for c in ast.walk(n))]
+    if len(loops) != 1:
+        raise AnalysisError(f"_skip_simulator: expected one time loop calling _simulate_new_candles, found {len(loops)}")
+    loop = loops[0]
+    n = 0
+    for step in (1, 3, 5):
+        for length in range(1, 14):
+            chunks, execs = [], []
+            stubs = W.base_stubs()
+            stubs[f"{BT}:_simulate_new_candles"] = lambda it, a, k, chunks=chunks: chunks.append((a[1], a[2]))
+            stubs[f"{BT}:_execute_routes"] = lambda it, a, k, execs=execs: execs.append((a[0], a[1]))
+            stubs[f"{BT}:_update_progress_bar"] = lambda it, a, k: None
+            stubs[f"{BT}:_execute_market_orders"] = lambda it, a, k: None
+            stubs[f"{BT}:save_daily_portfolio_balance"] = lambda it, a, k: None
+            it = Interp(repo, stubs=stubs)
+            fr = Frame(repo.module(BT), {"length": num(length), "candles_step": num(step), "candles": Unknown("candles"), "progressbar": Unknown("pb"),
+                                        "run_silently": True, "last_update_time": None})
+            try:
+                it.exec(loop, fr)
+            except NotInFragment as e:
+                raise AnalysisError(f"_skip_simulator time loop not interpretable: {e}")
+
+            def val(x):
+                return int(x.const_value()) if isinstance(x, R) and x.is_const() else None
+            cs = [(val(a), val(b)) for a, b in chunks]
+            pos, bad = 0, None
+            for a, b in cs:
+                if a is None or b is None or a != pos or b < 1:
+                    bad = f"chunk ({a}, {b}) does not continue at minute {pos}"
+                    break
+                pos = a + b
+            if bad is None and pos != length:
+                bad = f"chunks end at minute {pos}, the session has {length} minutes" + (" (the last chunk reaches beyond the input)" if pos > length else "")
+            if bad is None and [(val(a), val(b)) for a, b in execs] != cs:
+                bad = f"_execute_routes gets {[(val(a), val(b)) for a, b in execs]}, chunks are {cs}"
+            if bad:
+                rep.violation(rid, "fast|chunks", f"_skip_simulator with session length {length} and step {step}: {bad}; chunks = {cs}")
+            n += 1
+            rep.instance(rid, f"length={length}|step={step}", {"chunks": cs} if length in (12, 13) else None)
+    rep.floor(rid, 39)
 
 
 def check_structure(repo, rep):
@@ -234,6 +302,7 @@ def run(repo: Repo, rep, tier: str):
     rep.exhaustive = True
     rep.assume("a trading-candle span is modelled by two contiguous 1m candles and one resting order (unambiguous fill); hooks and ledgers are event sinks")
     rep.guarded(check_chunk_step, repo, rep)
+    rep.guarded(check_chunks_partition, repo, rep)
     rep.guarded(check_structure, repo, rep)
     rep.guarded(check_fast_time, repo, rep)
     rep.guarded(check_equivalence, repo, rep, tier)
@@ -246,8 +315,9 @@ CLAIM = {
     "technique": "abstract interpretation of both matching functions over the order domain of a two-minute span (fill price/time equality), interpretation of the chunk-step function, trace-level sibling agreement of the two simulator loops",
     "text": "Static. (1) For every weak ordering of two contiguous 1m candles and one resting order price, /repo's per-minute matching "
             "(run on minute 1 then minute 2) and the fast chunk matching are both interpreted from source: same fill / no fill, same "
-            "price, same simulated fill time, same final current price. (2) The chunk step is the gcd of all route timeframes for nine "
-            "route sets (incl. non-multiples like 3m+5m, 45m+1h). (3) The two simulator loops have identical phase sequences after "
+            "price, same simulated fill time, same final current price. (2) The chunk step is the gcd of all route timeframes for 15 "
+            "route sets (trading + data routes, incl. non-multiples like 3m+5m, 45m+1h and smaller data routes); the fast time loop "
+            "partitions sessions of length 1..13 into consecutive chunks ending at the session length (no over-long trailing chunk). (3) The two simulator loops have identical phase sequences after "
             "inlining helpers and corresponding route-due tests; the fast matcher sets the clock before each execute and at chunk end. "
             "Not decided: whole-session output equality for arbitrary strategies.",
     "note": "Trusted: interpreter semantics; a span = 2 minutes, 1 order; quick tier samples every 4th ordering (thorough: all 8308).",
